@@ -10,6 +10,9 @@ func Sound(r *rig.Rng) *Program {
 	emit := func(b ...byte) { copy(rom[pc:], b); pc += len(b) }
 	io := func(reg, v uint8) { emit(0x3e, v, 0xe0, reg) }
 	rig.Put(rom, 0x100, 0x00, 0xc3, 0x50, 0x01)
+	if r.Chance(1, 2) {
+		io(0x26, 0x00) // the sound hardware is switched off and on again first
+	}
 	io(0x26, 0x80)
 	io(0x24, 0x77)
 	io(0x25, 0xff)
@@ -17,6 +20,7 @@ func Sound(r *rig.Rng) *Program {
 	for k := 0; k < 40; k++ {
 		switch r.Intn(5) {
 		case 0:
+			io(0x10, r.U8()&0x7f)
 			io(0x12, 0xf0|r.U8()&0x0f)
 			io(0x13, r.U8())
 			io(0x14, 0x80|r.U8()&7)
